@@ -354,6 +354,35 @@ def _repeated_runs(acc, variant):
                     break
 
 
+def sibling_bindings(acc):
+    """A nested graph receives exactly the values addressed to ITS inputs: two (three) sibling nested graphs bind the SAME input name
+    to different values - each inner function gets its own graph's value, in every node-list order, at depth 1 and 2, both runners;
+    a binding of that name on the enclosing graph overrides all of them."""
+    subs = []
+    for i, tag in enumerate(("sa", "sb", "sc")):
+        ins = ["x"] if i == 0 else [f"o{i - 1}"]
+        subs.append(T.gnode(tag, T.prog([T.fn(f"f{tag}", ins + ["k"], [f"o{i}"])], name=tag, bind={"k": ["bound-in", tag]})))
+    for n in (2, 3):
+        for perm in itertools.permutations(range(n)):
+            for depth in (1, 2):
+                for outer_bind in (False, True):
+                    for runner in ("sync", "async"):
+                        nodes = [copy.deepcopy(subs[i]) for i in perm]
+                        if depth == 2:
+                            nodes = [T.gnode("w_" + sp["id"], T.prog([sp], name="w_" + sp["id"])) for sp in nodes]
+                        prog = T.prog(nodes)
+                        if outer_bind:
+                            prog["bind"] = {"k": ["bound-outer", "k"]}
+                        h = H()
+                        x = execute(T.set_async(prog, runner == "async"), {"x": ["prov", "x"]}, runner=runner, h=h, error_handling="continue")
+                        acc.evaluations += 1
+                        acc.key(("sibling-bindings", n, perm, depth, outer_bind, runner))
+                        got = {c.nid: c.args.get("k") for c in h.calls}
+                        exp = {f"f{t}": (("bound-outer", "k") if outer_bind else ("bound-in", t)) for t in ("sa", "sb", "sc")[:n]}
+                        if x.status != "completed" or got != exp:
+                            acc.violation({"symptom": "inner-arguments-differ", "sibling_bindings": True, "outer_bind": outer_bind}, {"sibling_bindings": True}, f"{n} sibling nested graphs binding k differently (order {perm}, depth {depth}, outer binding {outer_bind}, {runner}): status {x.status}, inner functions received k = {jsonable(got)}, expected {jsonable(exp)}")
+
+
 OPTION_LIKE_NAMES = ["values", "select", "max_iterations", "entrypoint", "on_missing", "on_internal_override", "error_handling", "event_processors", "graph", "max_concurrency", "map_over", "clone", "self", "runner", "kwargs"]
 
 
@@ -390,6 +419,8 @@ def run_shard(shard):
         repeated_runs(acc)
     if s == 1:
         option_like_names(acc)
+    if s == 2:
+        sibling_bindings(acc)
     for ci, (shape, src, od, S) in enumerate(configs(tier, seed)):
         if ci % k != s:
             continue
@@ -404,6 +435,10 @@ def coverage_extra(acc, tier, seed):
 
 
 def replay(rep):
+    if "sibling_bindings" in rep:
+        acc = Acc()
+        sibling_bindings(acc)
+        return [v["message"] for v in acc.violations.values()]
     if "option_like_names" in rep:
         acc = Acc()
         option_like_names(acc)
